@@ -823,7 +823,9 @@ def duplex_property(case, res, outs):
     close(), failing poll()/fileno(): excluded from 'EOFError + closed' by assumption)"""
     incoming = [make_packet(x) for x in case["incoming"]]
     got = [bytes.fromhex(x[4:]) for o, x in zip(case["ops"], res["results"]) if o == "R" and x.startswith("ok:x")]
-    if got != incoming[:len(got)]:
+    # a raw stream.read(n > 0) by the application takes bytes out of the framing: recv() is then not judged
+    raw_reads = any(o[0] == "r" and x.startswith("ok:x") and len(x) > 4 for o, x in zip(case["ops"], res["results"]))
+    if not raw_reads and got != incoming[:len(got)]:
         return "a packet returned by recv() is not the next packet of the incoming stream"
     ok_sent = []
     it = iter(outs)
@@ -840,11 +842,12 @@ def duplex_property(case, res, outs):
     kinds = [x.split(":")[0] for x in res["results"]]
     if "EOFError" in kinds and res["closed"] != "T":
         return "EOFError was raised but the stream is not closed at the end"
-    odd = [k for k in kinds if k not in ("ok", "T", "F", "EOFError", "starved")]
-    excused = case["fault"] or any(ev[0] in "sgf" for ev in Script(case["pscript"]).text().replace("*", ",").split(","))
-    corrupt_ok = "zlib.error" in odd and False
-    if odd and not excused and not corrupt_ok:
-        return "unexpected exception(s) %s with a well-behaved descriptor" % sorted(set(odd))
+    # what poll() and close() themselves raise is outside the claim; read/write/send/recv may raise something other
+    # than EOFError only where the descriptor's own close() failed (excluded by assumption)
+    odd = sorted(set(k for o, k in zip(case["ops"], kinds)
+                     if o[0] in ("SRrw" if not raw_reads else "Srw") and k not in ("ok", "EOFError", "starved")))
+    if odd and not case["fault"]:
+        return "unexpected exception(s) %s from send/recv/read/write with a well-behaved descriptor" % odd
     return None
 
 
